@@ -307,6 +307,17 @@ class Evaluator:
                 self._bind(q, sub, env, counter)
         elif p == "ref":
             self._bind(pat["sub"], val, env, counter)
+        elif p == "struct" and pat.get("fields") is not None and "pats" not in pat:
+            # `let Spec { class, spacing, .. } = *spec;`: each name is that field of the value
+            for f in pat["fields"]:
+                sub = None
+                if val is not None and not is_form(val) and val[0] == "obj":
+                    sub = ("obj", f"{val[1]}.{f.get('name')}")
+                elif val is not None and not is_form(val) and val[0] == "struct" and isinstance(val[1], dict):
+                    sub = val[1].get(f.get("name"))
+                elif is_form(val) and len(val) == 1 and ONE not in val and list(val.values())[0] == 1:
+                    sub = ("obj", f"{list(val)[0]}.{f.get('name')}")
+                self._bind(f["pat"], sub, env, counter)
         elif p in ("tstruct", "struct"):
             for q in pat.get("pats", []):
                 self._bind(q, None, env, counter)
